@@ -163,6 +163,31 @@ CLAIMED = {
         design='DESIGN.md section 5, C18',
         note='Decides the known evaluator kinds listed in the checker (table EVALUATORS); "whatever text" as such is not '
              'decided.'),
+    'C13': dict(
+        technique='taint analysis over abstract values (source: the hull returned by combinations.union, through '
+                  'functools.reduce and function-valued parameters; sink: receiver of .inversion); dual-operator and '
+                  'De Morgan shape checks; decision tables of the constant / unknown-matcher cases',
+        text='The interval that limits how much input filter reads must over-approximate the selected lines: no path '
+             'of the combination visitors takes the inversion of a union (convex hull), the inversion of a combination '
+             'is built with the dual operator over the operands\' inversions, the negation evaluator rewrites && / || '
+             'into the dual over negated operands and constants into the opposite constant, matchers of unknown kind '
+             'are never narrowed in either polarity, and the interval classes\' own inversions are exact complements '
+             '(+1 / -1).',
+        design='DESIGN.md section 5, C13',
+        note='Only these soundness clauses are decided; the arithmetic of bounds, -line-nums range merging and '
+             'negative indices are value-level and not claimed.'),
+    'C14': dict(
+        technique='sibling classification of all as_lines implementations by the origin of the line iterator; sweep of '
+                  'the text-value modules for str.splitlines / filecmp / binary-mode open / newline= arguments; '
+                  'delegation agreement and caching typestate of the freezing wrapper',
+        text='All non-delegating implementations of as_lines split at newline only (a text file object or the '
+             'repository\'s newline splitter) - none uses str.splitlines; the ~140 modules that handle texts as values '
+             'contain no str.splitlines, no filecmp and no binary-mode open, so every access sees the text in text '
+             'mode; the freezing wrapper takes all five views from the one contents object it caches on first use and '
+             'produces it via write_to; no text is opened with a newline= argument and the spooled buffer keeps "\\n".',
+        design='DESIGN.md section 5, C14',
+        note='Representation agreement only; equality of characters across representations and buffer-size '
+             'boundaries are not decided.'),
 }
 
 NOT_APPLICABLE = {
